@@ -406,11 +406,48 @@ func c13Blanks(c *Ctx) {
 	F := FactsOf(sw)
 	skipped := map[string]bool{}
 	commentStop := ""
-	for _, call := range callsIn(sw) {
-		if !staticCalleeIs(call, "(*lang.Lexer).advance") {
-			continue
+	// a cursor move is a call of advance, or of a helper split off skipWhitespace that advances
+	// (`l.skipComment()`)
+	movers := func(fn *ssa.Function) []ssa.CallInstruction {
+		var out []ssa.CallInstruction
+		for _, call := range callsIn(fn) {
+			h := call.Common().StaticCallee()
+			if staticCalleeIs(call, "(*lang.Lexer).advance") {
+				out = append(out, call)
+			} else if h != nil && h != sw && p.inClusterOf(sw, h) {
+				for _, hc := range callsIn(h) {
+					if staticCalleeIs(hc, "(*lang.Lexer).advance") {
+						out = append(out, call)
+						break
+					}
+				}
+			}
 		}
+		return out
+	}
+	for _, call := range movers(sw) {
 		var eqs, nes []string
+		if h := call.Common().StaticCallee(); !staticCalleeIs(call, "(*lang.Lexer).advance") {
+			// inside the helper: every advance is under `next byte != '\n'`
+			all := true
+			for _, hc := range callsIn(h) {
+				if !staticCalleeIs(hc, "(*lang.Lexer).advance") {
+					continue
+				}
+				stops := false
+				for _, rl := range FactsOf(h).At(hc.Block()).Rels() {
+					if k, ok := constInt(rl.y); ok && rl.op == relNE && k == '\n' {
+						stops = true
+					}
+				}
+				if !stops {
+					all = false
+				}
+			}
+			if all {
+				nes = append(nes, "\n")
+			}
+		}
 		for _, rl := range F.At(call.Block()).Rels() {
 			k, ok := constInt(rl.y)
 			if !ok {
@@ -435,11 +472,9 @@ func c13Blanks(c *Ctx) {
 		// the blank arm: the block is reached from three equality tests; use the may-set
 	}
 	ms := p.maySetOf(sw, "(*lang.Lexer).peek(l)", []string{"32", "13", "9", "35", "10", "other"})
-	for _, call := range callsIn(sw) {
-		if staticCalleeIs(call, "(*lang.Lexer).advance") {
-			for _, k := range ms.At(call.Block()) {
-				skipped[k] = true
-			}
+	for _, call := range movers(sw) {
+		for _, k := range ms.At(call.Block()) {
+			skipped[k] = true
 		}
 	}
 	var ks []string
